@@ -17,7 +17,7 @@ RULE = ("cases: (and) 1-5 consecutive fibers, each a pair of leaf fibers [[coord
         "addTraces calls (fiber by fiber, one shot, mixed); small scope = all pairs of coordinate subsets "
         "of {0..n-1}; (lf) same operands through the leader-follower intersection; (swaps) trees of "
         "2-4 ranks, merge depth 0-1, radix 2..5 or inf, latency 1..3 or 'N', sub-fibers incl. empty ones "
-        "and ones holding only explicit defaults. non-trivial = (and) >= 1 merge step and at least one of "
+        "and ones holding only explicit defaults (which count like any other). non-trivial = (and) >= 1 merge step and at least one of "
         "match / run of length >= 2 / trailing use / several fibers; (lf) a non-empty leader; (swaps) at "
         "least one merge of >= 2 lists")
 
@@ -462,18 +462,10 @@ def nontrivial(case, verdict):
 
 
 def signature(case, verdict, failed):
-    """classification of a failing case for known_findings.json.  The classes are computed by
-    the Lean side (tags): a spec failure is attributed to a known class only if the model
-    reproduces the implementation's totals (agree) — otherwise it is something new."""
-    t = verdict.get("tags", [])
+    """classification of a failing case (no class of C19 is a known finding any more: the
+    one-shot over-count of the two-finger / skip-ahead models and the payload dependence of
+    numSwaps were repaired in the library)"""
     kind = case["kind"]
-    if failed == ["spec"] and verdict.get("agree"):
-        if kind == "and":
-            for x in t:
-                if x.startswith("dirty:"):
-                    return "and:" + x[len("dirty:"):]
-        if kind == "swaps" and "hidden-empty" in t:
-            return "swaps:all-default-subfiber-not-merged"
     why = verdict.get("why", "")
     part = why[why.find("specfail="):] if "specfail=" in why else ""
     return f"{kind}:{'/'.join(sorted(failed))}:{part}"
